@@ -325,7 +325,10 @@ fn case_mapsize<D: Distance>(sc: &Scenario, map_size: usize, c: &mut Counters, s
                 Ok(Ok(())) => {
                     m.items.insert(*id, v.clone());
                 }
-                Ok(Err(arroy::Error::Heed(_))) => {
+                Ok(Err(arroy::Error::Heed(e))) => {
+                    if !format!("{e:?}").contains("MapFull") {
+                        return Err(format!("map size {map_size}: add_item ran out of space but reported {e:?}, not the corresponding error (MDB_MAP_FULL)"));
+                    }
                     failed_at = Some("add");
                     break;
                 }
@@ -339,7 +342,12 @@ fn case_mapsize<D: Distance>(sc: &Scenario, map_size: usize, c: &mut Counters, s
                 Outcome::Ok => {
                     walk(&wtxn, world.db, &m).map_err(|e| format!("map size {map_size}: build returned Ok but {e}"))?;
                 }
-                Outcome::HeedErr(_) => failed_at = Some("build"),
+                Outcome::HeedErr(e) => {
+                    if !e.contains("MapFull") {
+                        return Err(format!("map size {map_size}: the build ran out of space but reported {e}, not the corresponding error (MDB_MAP_FULL)"));
+                    }
+                    failed_at = Some("build")
+                }
                 Outcome::Panic(p) => return Err(format!("map size {map_size}: build panicked: {p}")),
                 Outcome::Cancelled => return Err(format!("map size {map_size}: build reported BuildCancelled without being asked")),
                 Outcome::IoErr(e) | Outcome::OtherErr(e) => return Err(format!("map size {map_size}: build failed with {e} (expected a heed error)")),
@@ -623,7 +631,7 @@ pub fn run(args: &Args) {
         .set("counters", c.to_json())
         .set("sigs", J::Arr(sigs.iter().map(|s| J::s(format!("{s:x}"))).collect()))
         .set("samples", J::Arr(samples))
-        .set("rule", J::s("fault enumeration: (a) per scenario (built index of 3-200 items + pending insertions/overwrites/deletions from none to 40+30, forests that must grow, shrink or stay) the cancellation callback answers true from its n-th call for n over the polls of a complete build (every n thorough; first/last 40 and every 7th quick), pools of 1 and 4 threads, plus three retries per scenario on the same ArroyBuilder object after its cancellation (fresh transaction, fault lifted); (b) 18 LMDB map sizes from 64 KiB to 8 MiB around a ~1-3 MiB workload; (c) temp dir missing / a regular file / temp-file writes failing under RLIMIT_FSIZE; (d) fd count and temp-dir listing after each of hundreds of successful, cancelled and failed builds per process; non-trivial+distinct = distinct fault outcomes (MainStep at cancellation, map-full site, temp fault kind)"))
+        .set("rule", J::s("fault enumeration: (a) per scenario (built index of 3-200 items + pending insertions/overwrites/deletions from none to 40+30, forests that must grow, shrink or stay) the cancellation callback answers true from its n-th call for n over the polls of a complete build (every n thorough; first/last 40 and every 7th quick), pools of 1 and 4 threads, plus three retries per scenario on the same ArroyBuilder object after its cancellation (fresh transaction, fault lifted); (b) 18 LMDB map sizes from 64 KiB to 8 MiB around a ~1-3 MiB workload (the error must be MDB_MAP_FULL itself); (c) temp dir missing / a regular file / temp-file writes failing under RLIMIT_FSIZE; (d) fd count and temp-dir listing after each of hundreds of successful, cancelled and failed builds per process; non-trivial+distinct = distinct fault outcomes (MainStep at cancellation, map-full site, temp fault kind)"))
         .set("required", J::Arr(["cancel_points_enumerated", "cancel_reported", "same_builder_retries", "leak_probes", "tmp_tmpdir_missing", "tmp_tmpdir_is_a_file", "mapsize_ample", "mapsize_retry_ok"].iter().map(|s| J::s(*s)).collect()))
         .set("wall_s", J::Num(t0.elapsed().as_secs_f64()));
     emit("SUMMARY", &j);
